@@ -363,6 +363,27 @@ def frozen_and_uri(st: Stats):
                 fh.write(good)
         except Exception:
             pass
+        # ---- the pinned cache file re-encoded: the same text with other bytes is not what the digest pins
+        variants = {"crlf": good.replace(b"\n", b"\r\n"), "one-crlf": good.replace(b"\n", b"\r\n", 1), "bom": b"\xef\xbb\xbf" + good, "no-final-newline": good.rstrip(b"\n"),
+                    "trailing-blank": good.replace(b"CAPSULE\n", b"CAPSULE \n"), "nfd": good.replace(b"STD", "ST\u00c9".encode()).replace("\u00c9".encode(), "E\u0301".encode()),
+                    "extra-newline": good + b"\n", "lone-cr": good.replace(b"\n", b"\r", 1)}
+        for vname, data in sorted(variants.items()):
+            if data == good:
+                continue
+            with open(gp, "wb") as fh:
+                fh.write(data)
+            st.evaluations += 1
+            st.nontrivial_exact += 1
+            st.labels["frozen_refs"] += 1
+            try:
+                p3 = resolve_hermetic_standard("frozen@sha256:" + dg, Path(cache))
+                if hashlib.sha256(open(str(p3), "rb").read()).hexdigest() != dg:
+                    st.fail("C19:unlisted:frozen-ref-resolves-to-wrong-file", {"kind": "frozen", "ref": "re-encoded:" + vname},
+                            f"the cache file holds a re-encoded copy ({vname}) whose bytes do not hash to the pinned digest, and the reference still resolves to it")
+            except Exception:
+                pass
+        with open(gp, "wb") as fh:
+            fh.write(good)
         # ---- SOURCE_URI
         vb = os.path.join(base, "vocab")
         twin = os.path.join(base, "vocab-private")
